@@ -12,7 +12,7 @@ import "strings"
 var Operands = []string{
 	"v()", "int", "T", "len", "[]int", "_", "two()", "nil", "T{}", "v", "L", "iota",
 	"1", "1.5", "'a'", "1i", "\"s\"", "true", "[]int{1}", "map[string]int{}", "func() {}", "&T{}", "new(int)", "make(chan int, 1)", "struct{}{}",
-	"[2]int{}", "interface{}(1)", "error(nil)", "x0", "T.a", "(*T)(nil)", "1 << 70", "-1", "append", "println", "main",
+	"[2]int{}", "interface{}(1)", "error(nil)", "x0", "T.a", "(*T)(nil)", "1 << 70", "-1", "append", "println", "main", "int(x0)", "one()", "3", "4",
 }
 
 // Contexts are the positions; every %s is replaced by the operand.
@@ -26,12 +26,14 @@ var Contexts = []string{
 	"delete(%s, 1)", "delete(map[int]int{}, %s)", "close(%s)", "_ = new(%s)", "_ = make(%s)", "_ = make(%s, 1)", "_ = make([]int, %s)", "_ = make([]int, 1, %s)", "_ = make(chan int, %s)", "panic(%s)", "_ = complex(%s, 1)", "_ = complex(1, %s)", "_ = real(%s)", "_ = imag(%s)", "print(%s, %s)", "_ = recover(%s)",
 	"select { case <-%s: }", "select { case %s <- 1: }", "select { case x := <-%s: _ = x }", "select { case x0 = <-%s: }", "var a [2]int; _ = a[%s]", "var a []int; _ = a[%s:]", "var a []int; _ = a[:%s:%s]", "var s string; _ = s[%s]", "var m map[string]int; _ = m[%s]",
 	"ch := make(chan int); ch <- %s", "var f func(...int); f(%s...)", "var f func(...int); f(1, %s)", "const c = %s; _ = c", "const c int = %s; _ = c", "var x int = %s; _ = x", "var x interface{} = %s; _ = x", "var x error = %s; _ = x", "type U %s", "type U = %s", "type U []%s", "type U struct{ f %s }", "type U func(%s) %s", "var x %s; _ = x", "var x [2]%s; _ = x", "var x map[%s]int; _ = x", "var x chan %s; _ = x", "var x *%s; _ = x",
+	"x0 = %s, 1", "x0, y := %s, 1, 2; _ = y", "var y = %s, 1; _ = y", "y := %s, 1; _ = y", "var y, z = %s, 1, 2; _, _ = y, z", "x0, x0 = %s", "return %s, 1", "v2(%s, 1)", "x0 = %s, %s",
+	"_ = [][2]int{{%s, 2, 3}}", "_ = [2]int{%s, 2, 3}", "_ = [3]int{}[%s]", "var a3 [3]int; _ = a3[:%s]",
 	"x, y := %s, 1; _, _ = x, y", "var x, y = %s; _, _ = x, y", "x, y := 1, %s; _, _ = x, y", "x0, y := %s; _ = y", "if x := %s; x {}", "switch x := %s; x {}", "switch x := %s.(type) { default: _ = x }", "switch { case %s: }", "switch 1 { case %s: }", "switch interface{}(1).(type) { case %s: }", "for i := %s; ; {}", "for ; ; %s {}", "L2: for { break %s }", "goto %s", "func() { %s }()", "func(a %s) {}(1)", "_ = func() %s { return 1 }", "{ %s }",
 }
 
 // Program returns the program with operand op in position ctx.
 func Program(ctx, op string) string {
-	return "package main\n\ntype T struct{ a int }\n\nvar x0 int\n\nfunc v() {}\nfunc v2(int) {}\nfunc two() (int, int) { return 1, 2 }\n\nfunc main() {\nL:\n\tfor {\n\t\tbreak L\n\t}\n\t_ = x0\n\t" + strings.ReplaceAll(ctx, "%s", op) + "\n}\n"
+	return "package main\n\ntype T struct{ a int }\n\nvar x0 int\n\nfunc v() {}\nfunc v2(int) {}\nfunc one() int { return 1 }\nfunc two() (int, int) { return 1, 2 }\n\nfunc main() {\nL:\n\tfor {\n\t\tbreak L\n\t}\n\t_ = x0\n\t" + strings.ReplaceAll(ctx, "%s", op) + "\n}\n"
 }
 
 // TemplateContexts are positions that exist only in templates; %s is replaced by the operand.
@@ -46,5 +48,5 @@ var TemplateContexts = []string{
 
 // TemplateProgram returns the HTML template with operand op in position ctx.
 func TemplateProgram(ctx, op string) string {
-	return "{% type T struct{ a int } %}{% var x0 int %}{% var v = func() {} %}{% var v2 = func(int) {} %}{% var two = func() (int, int) { return 1, 2 } %}" + strings.ReplaceAll(ctx, "%s", op)
+	return "{% type T struct{ a int } %}{% var x0 int %}{% var v = func() {} %}{% var v2 = func(int) {} %}{% var two = func() (int, int) { return 1, 2 } %}{% var one = func() int { return 1 } %}" + strings.ReplaceAll(ctx, "%s", op)
 }
